@@ -106,7 +106,7 @@ inductive Ev where
   -- Stop
   | callStop | stopNotActive | stopOnStarting | stopAlready | stopDecide | stopSwitched | stopWaited | stopCleaned
   -- producer
-  | tick | send | sendError | abortSeen
+  | tick | send | sendError | abortSeen | selfClose
   -- RPC layer
   | callRpc | rpcNotActive | rpcPass | rpcSourceGone | flagOn | flagOff | flagRefresh
   | scStartRefused | scStopNotActive
@@ -225,6 +225,13 @@ def step (s : St) (e : Ev) : Option St :=
       (if s.nbClosed then some { s with crashed := true }     -- close of a closed channel
        else some { s with pp := .done, nbClosed := true, res := false, asm := s.asm - 1 })
     else none
+  -- the producer of a hardware-style source ends the run BY ITSELF (its reader saw no data for its time-out): the
+  -- pending acquisition step shuts the devices and closes `nextBlock`, although nobody closed `abortSelf`
+  | .selfClose =>
+    if s.pp = .run ∧ s.opens = true ∧ s.asm > 0 then
+      (if s.nbClosed then some { s with crashed := true }
+       else some { s with pp := .done, nbClosed := true, res := false, asm := s.asm - 1 })
+    else none
   -- ---------------------------------------------------------------- runLaterIfActive
   | .callRpc => some { s with rEnter := s.rEnter + 1 }
   | .rpcNotActive => if s.rEnter > 0 ∧ s.flag = false then some { s with rEnter := s.rEnter - 1 } else none
@@ -329,6 +336,7 @@ def evOf (role : String) (site : String) (fuel : Nat) (nrep : Nat) (w : WEff) : 
   | "prod.send" => some .send
   | "prod.sendError" => some .sendError
   | "prod.abortSeen" => some .abortSeen
+  | "prod.selfClose" => some .selfClose
   | "rpc.enter" => some .callRpc
   | "rpc.notActive" => some .rpcNotActive
   | "rpc.beforeSend" => some .rpcPass
@@ -389,7 +397,7 @@ def expandAsm : List Tok → List Tok
   | t :: ts =>
     if t.site == "asm.send" then
       { role := "P", site := "prod.tick" } :: { role := "P", site := "prod.send" } :: expandAsm ts
-    else if t.site == "asm.close" then { role := "P", site := "prod.abortSeen" } :: expandAsm ts
+    else if t.site == "asm.close" then { role := "P", site := "prod.asmClose" } :: expandAsm ts
     else t :: expandAsm ts
 
 /-- implementation only: acquisition steps launched and not yet finished (delivered, closed or errored) never exceed one -/
@@ -399,7 +407,7 @@ def chkAsmOverlap : List Tok → Nat → Option String
     if t.site == "asm.spawn" then
       if n ≥ 1 then some "C10:acquisition-steps-overlap getNextBlock launched an acquisition step while the previous one was still pending (each pending one closes nextBlock when the run ends)"
       else chkAsmOverlap ts (n + 1)
-    else if t.site == "loop.gotBlock" || t.site == "prod.abortSeen" || t.site == "loop.gotError" then chkAsmOverlap ts (n - 1)
+    else if t.site == "loop.gotBlock" || t.site == "prod.asmClose" || t.site == "loop.gotError" then chkAsmOverlap ts (n - 1)
     else chkAsmOverlap ts n
 
 /-- first core-loop token of a trace suffix is `loop.gotBlock`: remove it -/
@@ -445,7 +453,10 @@ def runTrace (fuel : Nat) : St → List Tok → Nat → Nat → Bool → TraceRe
   | s, [], _, n, bad => .ok s n bad
   | s, t :: ts, i, n, bad =>
     let name := t.role ++ ":" ++ t.site
-    if t.site.startsWith "obs.reuse." then
+    if t.site.startsWith "obs.selfend." then
+      -- the source ended by itself: Inactive, loop gone, devices released in the model too
+      if s.st == .inactive && s.lp == .off && !s.res then runTrace fuel s ts (i + 1) n bad else .obsMismatch i name s
+    else if t.site.startsWith "obs.reuse." then
       -- the released Stop caller has returned; the new run is active in the model too
       if s.kWait == 0 && s.kReady == 0 && (t.site.drop 10).toString == "0." ++ toString (stCode s.st) then
         runTrace fuel s ts (i + 1) n bad
@@ -473,7 +484,9 @@ def runTrace (fuel : Nat) : St → List Tok → Nat → Nat → Bool → TraceRe
     else if isEffSite t.site then
       if effAllowed s t then runTrace fuel s ts (i + 1) n bad else .effOutside i name
     else
-      match evOf t.role t.site fuel 1 (closureW ts) with
+      -- the close by an acquisition step is the abort path when `abortSelf` is closed, else the source's own end
+      let site := if t.site == "prod.asmClose" then (if s.abortClosed then "prod.abortSeen" else "prod.selfClose") else t.site
+      match evOf t.role site fuel 1 (closureW ts) with
       | none => .unknown i name
       | some e =>
         -- the closure's reply has no site of its own: it precedes `loop.requestDone`
@@ -632,6 +645,18 @@ def chkRpcRestart : List Tok → Nat → Bool → Option String
       else chkRpcRestart ts inflight stopRet
     else chkRpcRestart ts inflight stopRet
 
+/-- implementation only: a running hardware-style source whose data stream stopped did not end by itself -/
+def chkSelfEnd : List Tok → Option String
+  | [] => none
+  | t :: ts =>
+    if t.site.startsWith "obs.selfend." then
+      match (t.site.drop 12).toString.splitOn "." with
+      | e :: st :: _ =>
+        if e != "1" then some s!"C10:abaco-no-clean-self-end the packet stream stopped but the source did not end by itself within 7.5 s (GetState() = {st}): reader time-out / shut-down path broken"
+        else chkSelfEnd ts
+      | _ => chkSelfEnd ts
+    else chkSelfEnd ts
+
 /-- implementation only: a Stop caller released after ITS run ended (a new run being active) did not return -/
 def chkReuse : List Tok → Option String
   | [] => none
@@ -660,7 +685,8 @@ def chkHold : List Tok → Option String
 was a Stop ⇒ the source reports Inactive; a Start issued in these schedules (always on a source whose Stops have
 returned) is never refused by `SetStateStarting`. -/
 def chkImplOnly (ln : Line) (toks : List Tok) (calls : List (String × Nat)) (fin : Fin) : Option String :=
-  if (chkReuse toks).isSome then chkReuse toks
+  if (chkSelfEnd toks).isSome then chkSelfEnd toks
+  else if (chkReuse toks).isSome then chkReuse toks
   else if (chkHold toks).isSome then chkHold toks
   else if fin.hang != 0 || calls.any (fun c => c.2 == 2) then
     some "C10:hang a Start/Stop call did not return (watchdog)"
@@ -718,6 +744,7 @@ def judgeRun (ln : Line) (toks0 : List Tok) (calls : List (String × Nat)) (fin 
             (if ln.sched == "stopDecided" then ["gated", "selfEndInsideStop"] else []) ++
             (if ln.sched == "rpc" then ["rpcLayer", "gated"] else []) ++
             (if ln.sched == "holdStop" then ["stopHeldLong", "gated"] else []) ++
+            (if ln.sched == "abacoSelfEnd" then ["selfEnd", "timeoutEnd", "gated"] else []) ++
             (if countSite toks "asm.spawn" > 0 then ["acquisitionSteps", "gated"] else []) ++
             (if countSite toks "sc.start.refused" > 0 then ["startRefusedWhileActive"] else []) ++
             (if ln.sched == "rnd" || ln.sched == "stopAt" || ln.sched == "reuse" || ln.sched == "timing" then ["gated"] else []) ++
@@ -730,7 +757,9 @@ def runLine (ts : List String) : Verdict :=
   | .ok ln =>
     match ln.out with
     | .panic cls =>
-      if (cls.splitOn "Called_Stop_on_a_Starting").length > 1 then
+      if ln.sched == "abacoSelfEnd" then
+        .viol s!"C10:abaco-no-clean-self-end the packet stream stopped and the server crashed instead of ending the run ({cls})"
+      else if (cls.splitOn "Called_Stop_on_a_Starting").length > 1 then
         .viol "C10:stop-on-starting-panic Stop called while the source is Starting panics (server exits)"
       else .viol s!"C10:panic-{cls} the life-cycle calls crashed the process"
     | .hang => .viol "C10:hang the case did not finish (watchdog)"
